@@ -53,7 +53,7 @@ def gen_cases(ctx, n):
 
 
 def correspond(ctx):
-    return X.run_c07(ctx, gen_cases(ctx, ctx.n(120, 5000)))
+    return X.run_c07(ctx, gen_cases(ctx, ctx.n(120, 20000)))
 
 
 def search(ctx, broken):
